@@ -121,7 +121,8 @@ def _const_test(e):
 
 
 class _Inliner:
-    def __init__(self, repo, f, depth):
+    def __init__(self, repo, f, depth, keep=()):
+        self.keep = set(keep)
         self.repo = repo
         self.f = f
         self.mod = f.module
@@ -141,7 +142,7 @@ class _Inliner:
             g = self.f.cls.methods.get(call.func.attr)      # a helper method of the same class (not an inherited or overridden one)
             if g is not None and any(call.func.attr in c.methods for c in self.repo.subclasses(self.f.cls, strict=True)):
                 g = None
-        if g is None or not inlinable(g, self.f) or g in scope:
+        if g is None or g in self.keep or not inlinable(g, self.f) or g in scope:
             return None
         ps = g.params[1:] if g.cls is not None else g.params
         if len(call.args) > len(ps) or any(k.arg not in ps for k in call.keywords):
@@ -303,10 +304,10 @@ class _Inliner:
         return out
 
 
-def inline_view(repo, f, depth=4):
+def inline_view(repo, f, depth=4, keep=()):
     """FuncInfo of a copy of f in which same-module helper calls are replaced by the helpers' bodies.
     ``view.origin`` is f, ``view.inlined`` the helpers pasted in (possibly empty)."""
-    inl = _Inliner(repo, f, depth)
+    inl = _Inliner(repo, f, depth, keep)
     node = _clone(f.node)
     node.body = inl.expand(node.body, depth, [f])
     set_parents(node)
